@@ -10,6 +10,7 @@
  * The driver is a well-behaved client: it remembers which of its registrations are live
  * (registered, not cancelled, callback not yet entered) and never passes a dead handle to a
  * cancel/reset call (such an operation of the program is skipped, as in the model).
+ * "td" is "tr" through events_timer_register_double (same trace).
  * In a register operation the last number [af] = k > 0 makes the k-th allocation performed by
  * library code during that call fail; k < 0 makes the |k|-th and every later one fail.  A
  * trailing "k 1" refuses every allocation during cancel calls (which cannot fail). */
@@ -22,7 +23,7 @@
 #include "events.h"
 #include "wrap_events.h"
 
-enum { O_IR, O_IC, O_NR, O_NC, O_TR, O_TX, O_TS, O_IN, O_DN, O_RUN, O_SPIN };
+enum { O_IR, O_IC, O_NR, O_NC, O_TR, O_TX, O_TS, O_IN, O_DN, O_TD, O_RUN, O_SPIN };
 struct op { int code; long a[5]; };
 struct script { int nops; struct op * ops; long rc; };
 struct cbdef { int nscripts; struct script * scripts; int runs; };
@@ -71,6 +72,7 @@ parse_op(struct op * o, const char * t)
 	else if (!strcmp(t, "nr")) { o->code = O_NR; n = 4; }
 	else if (!strcmp(t, "nc")) { o->code = O_NC; n = 2; }
 	else if (!strcmp(t, "tr")) { o->code = O_TR; n = 5; }
+	else if (!strcmp(t, "td")) { o->code = O_TD; n = 5; }
 	else if (!strcmp(t, "tx")) { o->code = O_TX; n = 1; }
 	else if (!strcmp(t, "ts")) { o->code = O_TS; n = 1; }
 	else if (!strcmp(t, "in")) { o->code = O_IN; n = 0; }
@@ -218,13 +220,25 @@ exec_op(struct op * o)
 		}
 		break;
 	case O_TR:
+	case O_TD:
 		g = newreg((int)o->a[0], K_TMR, 0, 0);
 		tv.tv_sec = (time_t)o->a[1];
 		tv.tv_usec = (suseconds_t)o->a[2];
-		lib_enter(o->a[4]);
-		h = events_timer_register(callback, g, &tv);
-		e = errno;
-		lib_leave();
+		if (o->code == O_TD) {
+			/* the same timeout through the double interface; the generator only uses fractions
+			 * that are multiples of 1/64 s (15625 us) and fewer than 2^46 seconds, so that the
+			 * double IS sec + usec / 10^6 and converts back to exactly (sec, usec) */
+			volatile double timeo = (double)o->a[1] + (double)o->a[2] / 1000000.0;
+			lib_enter(o->a[4]);
+			h = events_timer_register_double(callback, g, timeo);
+			e = errno;
+			lib_leave();
+		} else {
+			lib_enter(o->a[4]);
+			h = events_timer_register(callback, g, &tv);
+			e = errno;
+			lib_leave();
+		}
 		/* events.h: "${timeo} in the future" is a value; the caller's object is its own again as
 		 * soon as the call returns (events_timer_reset restores the timer's "initial value", not
 		 * whatever the caller's variable holds by then) */
